@@ -264,7 +264,7 @@ def compare(case, real, mout):
 
 def oracle(case, real):
     """the property, from the reader's results only"""
-    seen = {}; coll = {}; bad = []; cond = {}
+    seen = {}; coll = {}; bad = []; cond = {}; cont = {}
     for i, r in enumerate(real):
         op = r['op']; k = op['k']; res = r['res']
         if 'err' in res:
@@ -290,6 +290,10 @@ def oracle(case, real):
                 bad.append({'step': i, 'op': op, 'kind': 'condition-observed-attribute-changed', 'first_step': cond[key][0],
                             'first': 'query returned the instance for %s >= %d' % (NAMES[op['a']], cond[key][1]), 'got': res['val'], 'attr_kind': ATTRS[op['a']][1]})
         elif k == 'contains' and 0 not in VOLATILE:
+            ck = (op['p'], op['c'])          # `x in p.kids` is an observation of its own
+            if ck in cont and cont[ck][1] != res['bool']:
+                bad.append({'step': i, 'op': op, 'kind': 'contains-changed', 'first_step': cont[ck][0], 'first': cont[ck][1], 'got': res['bool']})
+            cont.setdefault(ck, (i, res['bool']))
             key = (op['c'], 0)
             if key in seen and (seen[key][1] == op['p']) != res['bool']:
                 bad.append({'step': i, 'op': op, 'kind': 'contains-changed', 'first_step': seen[key][0], 'first': seen[key][1], 'got': res['bool']})
@@ -404,11 +408,60 @@ def template_cases():
                     if rl is None: st.append(([ch], {'k': 'read', 'c': 1, 'a': x}))
                     else: st += [([ch], rl), ([], {'k': 'read', 'c': 1, 'a': x})]
                     hist(*st, rows=nrows)
+    # an observed None, a foreign commit of a non-NULL value, reload, re-read (no own write)
+    for x in (0, 4, 5):
+        ch = ['move', 1, 2] if x == 0 else ['set', 1, x, 7]
+        for rl in ({'k': 'fetch', 'ids': [1, 2], 'cols': NONLAZY}, {'k': 'load', 'c': 1}, {'k': 'fetch', 'ids': [1], 'sql': True, 'cols': [0, 1, 2, 3, 4, 5]}):
+            hist(([], {'k': 'fetch', 'ids': [1, 2], 'cols': NONLAZY}), ([], {'k': 'read', 'c': 1, 'a': x}), ([ch], rl), ([], {'k': 'read', 'c': 1, 'a': x}), rows=nrows)
+    # observation, commit() without pending assignments (a new transaction must not forget what was read), foreign commit, reload
+    for ob in observes[:6] + [{'k': 'contains', 'p': 1, 'c': 1}, {'k': 'len', 'p': 1}]:
+        for ch in (['set', 1, ob.get('a', 1), 9] if ob['k'] == 'read' and ob['a'] != 0 else ['move', 1, 2],):
+            hist(([], F), ([], ob), ([], {'k': 'commit'}), ([ch], F), ([], ob))
     # the session's own UPDATE is refused when an attribute it read was changed concurrently
     hist(([], F), ([], {'k': 'read', 'c': 1, 'a': 1}), ([['set', 1, 1, 77]], {'k': 'write', 'c': 1, 'a': 2, 'v': 5}), ([], {'k': 'commit'}))
     # the regression input of fix 6b92706: len, move a child away, re-fetch, len
     hist(([], {'k': 'len', 'p': 1}), ([['move', 1, 2]], F), ([], {'k': 'len', 'p': 1}), ([], {'k': 'iter', 'p': 1}), ([], {'k': 'count', 'p': 1}))
     return cases
+
+
+def vkey(b):
+    return '%s:%s' % (b['kind'], b.get('attr_kind', b['op']['k']))
+
+
+def shrink(env, executed, key, budget=120):
+    """greedy minimisation on the REAL code: drop reader steps / writer operations / rows while the oracle still reports a
+    violation with the same key; returns the minimal executed history and its first violation"""
+    def fails(c):
+        try: real = run_reader(env, c)
+        except Exception: return None
+        bad = [b for b in oracle(c, real) if vkey(b) == key]
+        if not bad: return None
+        return {'rows': c['rows'], 'steps': [{'w': r['w'], 'op': r['op']} for r in real]}, bad[0]
+    best = fails(executed)
+    if best is None: return None
+    changed = True
+    while changed and budget > 0:
+        changed = False
+        cur = best[0]
+        cands = []
+        for i in range(len(cur['steps'])):
+            cands.append(dict(cur, steps=cur['steps'][:i] + cur['steps'][i + 1:]))
+            if i + 1 < len(cur['steps']) and cur['steps'][i]['w']:      # drop the step but keep its writer operations
+                st = list(cur['steps']); st[i + 1] = dict(st[i + 1], w=st[i]['w'] + st[i + 1]['w']); del st[i]
+                cands.append(dict(cur, steps=st))
+            for j in range(len(cur['steps'][i]['w'])):
+                st = list(cur['steps']); st[i] = dict(st[i], w=st[i]['w'][:j] + st[i]['w'][j + 1:])
+                cands.append(dict(cur, steps=st))
+        for j in range(len(cur['rows'])):
+            cands.append(dict(cur, rows=cur['rows'][:j] + cur['rows'][j + 1:]))
+        for c in cands:
+            budget -= 1
+            if budget <= 0: break
+            r = fails(c)
+            if r is not None and (len(r[0]['steps']), sum(len(x['w']) for x in r[0]['steps']), len(r[0]['rows'])) < \
+                    (len(cur['steps']), sum(len(x['w']) for x in cur['steps']), len(cur['rows'])):
+                best = r; changed = True; break
+    return best
 
 
 def run_cases(ctx, env, cases, label):
@@ -428,10 +481,13 @@ def run_cases(ctx, env, cases, label):
             if r['w']: ctx.count('writer-ops-applied', len(r['w']))
         bad = oracle(case, real)
         if bad:
-            b = bad[0]
-            ctx.violation('a repeated read in one session returned a different value without an error', executed, observed=b,
+            b = bad[0]; key = vkey(b); small = executed
+            if not any(v['key'] == key for v in ctx.violations) and not any(k.get('key') == key for k in ctx.known):
+                m = shrink(env, executed, key)
+                if m is not None: small, b = m
+            ctx.violation('a repeated read in one session returned a different value without an error', small, observed=b,
                           expected='the value observed first (or assigned by the session itself), or UnrepeatableReadError',
-                          key='%s:%s' % (b['kind'], b.get('attr_kind', b['op']['k'])))
+                          key=key)
         if ctx.driver.ok:
             d = compare(case, real, next(mouts))
             if d is not None:
